@@ -42,6 +42,11 @@ TOL64 = 1e-10
 # float32 fit (spatial_frequencies, shifts and lstsq are float32): measured <= 5.3e-6 over 38 000 targeted
 # cases with the basis condition number capped at MAX_COND (19x head-room); the mutants of interest are O(1).  See meta.
 TOL_FIT = 1e-4
+# end-to-end fit (fit_hyperparameters_cross_correlation on a synthetic virtual bright-field stack): the shifts are
+# measured by upsampled cross-correlation (factor >= 16), not computed; measured on the clean tree over 400
+# configurations of the generated family: <= 5.8e-3 (relative aberration matrix / rad), median 4e-4.  0.1 leaves
+# 17x head-room; a fit that misses the generating values at all is off by O(1).
+TOL_E2E = 0.1
 
 SITES = [
     "validate",
@@ -318,6 +323,45 @@ def search_cases(draw):
         "items": items,
         "rot": draw(st.floats(-1.5, 1.5)),
         "data_seed": draw(st.integers(0, 10**6)),
+        "sampler_seed": draw(st.integers(0, 10**6)),
+    }
+
+
+@st.composite
+def fit_history_cases(draw):
+    """One live DirectPtychography object on a synthetic vBF stack (every image = the same smooth object displaced
+    exactly by the model-predicted shift of its detector pixel), driven through a short history of public
+    hyper-parameter calls; every cross-correlation fit in the history must return the generating values."""
+    d0, d1 = draw(st.integers(6, 9)), draw(st.integers(6, 9))
+    radius = draw(st.floats(1.8, min(d0, d1) / 2.0 - 0.6))
+    ss0 = draw(st.floats(0.3, 0.6))
+    ss = [ss0, ss0 if draw(st.booleans()) else draw(st.floats(0.3, 0.6))]
+    rs = draw(st.floats(0.06, 0.12))
+    energy = draw(st.sampled_from([60e3, 80e3, 200e3, 300e3]))
+    shift_px = draw(st.floats(1.5, 3.0))  # largest image displacement, in scan pixels
+    c10 = draw(st.sampled_from([1.0, -1.0])) * shift_px * min(ss) / (radius * rs * _wavelength(energy))
+    first = draw(st.sampled_from(["fit", "fit", "grid", "optuna"]))
+    steps = [first, "fit"] + (["fit"] if draw(st.integers(0, 3)) == 0 else [])
+    return {
+        "kind": "fit_history",
+        "det": [d0, d1],
+        "radius": radius,
+        "rs": rs,
+        "scan": [draw(st.sampled_from([24, 28, 32])), draw(st.sampled_from([24, 28, 32]))],
+        "ss": ss,
+        "energy": energy,
+        "data_seed": draw(st.integers(0, 10**6)),
+        "C10": c10,
+        "C12": abs(c10) * draw(st.floats(0.0, 0.4)),
+        "phi12": draw(st.floats(-1.5, 1.5)),
+        "rot": draw(st.floats(-1.0, 1.0)),
+        "steps": steps,
+        # per step: None = call without seeds (defaults), else multiplicative / additive error of the seeds passed
+        "seeds": [draw(st.none() | st.tuples(st.floats(0.8, 1.2), st.floats(-0.2, 0.2)).map(list)) for _ in steps],
+        "bin_factors": draw(st.sampled_from([[1], [2, 1], [3, 2, 1]])),
+        "method": draw(st.sampled_from(["reference", "pairwise"])),
+        "regularize": draw(st.booleans()),
+        "upsample": draw(st.sampled_from([16, 32])),
         "sampler_seed": draw(st.integers(0, 10**6)),
     }
 
@@ -1075,6 +1119,94 @@ def _wavelength(energy):
     return h / math.sqrt(2 * m * e * energy * (1 + e * energy / (2 * m * c * c))) * 1e10
 
 
+def _check_fit_history(ctx, case):
+    torch, cp, du = _q()
+    from quantem.core.datastructures import Dataset2d, Dataset3d
+    from quantem.diffractive_imaging.direct_ptychography import DirectPtychography, OptimizationParameter
+
+    C10, C12, phi12, rot = (float(case[k]) for k in ("C10", "C12", "phi12", "rot"))
+    steps = list(case["steps"])
+    nfit = steps.count("fit")
+    classes = ["fit_history", "fit_history:" + "->".join(steps), "fit_history_method:" + case["method"]]
+    if steps[0] != "fit":
+        classes.append("fit_history_optimise_then_fit")
+    if nfit >= 2:
+        classes.append("fit_history_fit_then_fit")
+    ctx.record(case, len(steps) >= 2 and nfit >= 1 and C12 != 0.0, classes)
+
+    # synthetic stack (harness model, float64): image i = object displaced by -s_i, s = A R(rot) k lambda
+    d0, d1 = case["det"]
+    rs = float(case["rs"])
+    ss = [float(v) for v in case["ss"]]
+    scan = tuple(int(v) for v in case["scan"])
+    lam = _wavelength(float(case["energy"]))
+    K0, K1 = np.meshgrid(np.fft.fftfreq(d0, 1.0 / d0), np.fft.fftfreq(d1, 1.0 / d1), indexing="ij")
+    mask = (K0 * K0 + K1 * K1) <= float(case["radius"]) ** 2  # point-symmetric disc
+    a, b, c = R.abc(C10, C12, phi12)
+    kx, ky = K0[mask] * rs * lam, K1[mask] * rs * lam
+    rx = kx * math.cos(rot) - ky * math.sin(rot)
+    ry = kx * math.sin(rot) + ky * math.cos(rot)
+    sx, sy = a * rx + b * ry, b * rx + c * ry
+    rng = np.random.default_rng(int(case["data_seed"]))
+    QX, QY = np.meshgrid(np.fft.fftfreq(scan[0], ss[0]), np.fft.fftfreq(scan[1], ss[1]), indexing="ij")
+    O = np.fft.fft2(rng.normal(size=scan)) * np.exp(-(QX**2 + QY**2) / (2 * 0.25**2))
+    O[0, 0] = 0
+    o = np.fft.ifft2(O).real
+    Oh = np.fft.fft2(1.0 + 0.2 * o / np.abs(o).max())
+    stack = np.stack(
+        [np.fft.ifft2(Oh * np.exp(2j * np.pi * (QX * sx[i] + QY * sy[i]))).real for i in range(int(mask.sum()))]
+    ).astype(np.float32)
+    vd = Dataset3d.from_array(stack, name="vbf", units=("index", "A", "A"), sampling=(1, ss[0], ss[1]))
+    md = Dataset2d.from_array(mask, name="mask", units=("A^-1", "A^-1"), sampling=(rs, rs))
+    with ctx.sut(case, "DirectPtychography.from_virtual_bfs"):
+        dp = DirectPtychography.from_virtual_bfs(
+            vd, md, energy=float(case["energy"]), rotation_angle=0.0, aberration_coefs={},
+            semiangle_cutoff=20.0, crop_bf_mask=False, verbose=False,
+        )  # fmt: skip
+
+    done = []
+    for i, (op, seed) in enumerate(zip(steps, case["seeds"])):
+        done.append(op)
+        if op == "fit":
+            kw = dict(
+                bin_factors=tuple(case["bin_factors"]), alignment_method=case["method"],
+                regularize_shifts=bool(case["regularize"]), dft_upsample_factor=int(case["upsample"]), verbose=False,
+            )  # fmt: skip
+            if seed is not None:
+                kw.update(aberration_coefs={"C10": C10 * float(seed[0])}, rotation_angle=rot + float(seed[1]))
+            with ctx.sut(case, "fit_hyperparameters_cross_correlation (step %d of %s)" % (i + 1, "->".join(steps))):
+                dp.fit_hyperparameters_cross_correlation(**kw)
+                co = {k: float(v) for k, v in dp.aberration_coefs.items()}
+                frot = float(dp.rotation_angle)
+            fa, fb, fc = R.abc(co.get("C10", 0.0), co.get("C12", 0.0), co.get("phi12", 0.0))
+            ea = max(abs(fa - a), abs(fb - b), abs(fc - c)) / (abs(C10) + abs(C12))
+            er = abs(frot - rot)
+            _note(ctx, "max_err_e2e_fit", max(ea, er))
+            if not (ea <= TOL_E2E and er <= TOL_E2E):
+                raise core.Violation(
+                    "history %s on one DirectPtychography object: cross-correlation fit number %d (step %d) of a stack displaced by "
+                    "the model shifts of C10=%.6g C12=%.6g phi12=%.4g rotation=%.4g returned %r, rotation %.4g "
+                    "(aberration matrix off by %.3g relative, rotation off by %.3g rad)"
+                    % ("->".join(done), done.count("fit"), i + 1, C10, C12, phi12, rot, co, frot, ea, er),
+                    case,
+                )
+        else:
+            lo, hi = sorted((0.5 * C10, 1.5 * C10))
+            with ctx.sut(case, "%s (step %d)" % (op, i + 1)):
+                if op == "grid":
+                    dp.grid_search_hyperparameters(
+                        aberration_coefs={"C10": OptimizationParameter(lo, hi, n_points=2)}, rotation_angle=rot + 0.1, verbose=False
+                    )
+                else:
+                    import optuna
+
+                    optuna.logging.set_verbosity(optuna.logging.ERROR)
+                    dp.optimize_hyperparameters(
+                        aberration_coefs={"C10": OptimizationParameter(lo, hi)}, rotation_angle=rot + 0.1, n_trials=2,
+                        sampler=optuna.samplers.TPESampler(seed=int(case["sampler_seed"])), verbose=False,
+                    )  # fmt: skip
+
+
 def _bf_mask(case):
     """The bright-field pixel set of a fit case (corner-centred, like quantem's bf_mask) and its classes.  When the
     drawn set does not determine the 2x2 matrix well (fewer than 4 pixels, or the least-squares basis k*lambda has
@@ -1261,6 +1393,8 @@ def check(ctx, case):
         return _check_history(ctx, case)
     if kind == "fit":
         return _check_fit(ctx, case)
+    if kind == "fit_history":
+        return _check_fit_history(ctx, case)
     raise core.HarnessError("unknown case kind %r" % kind)
 
 
@@ -1327,6 +1461,8 @@ def search(ctx):
     core.run_given(ctx, "alias", alias_cases(), lambda c: check(ctx, c), ctx.n(900, 9000))
     core.run_given(ctx, "history", history_cases(), lambda c: check(ctx, c), ctx.n(400, 4000))
     core.run_given(ctx, "fit", fit_cases(), lambda c: check(ctx, c), ctx.n(500, 6000))
+    # end-to-end fit histories on one live object: 1-2 s per case; not shrunk (each attempt costs as much)
+    core.run_given(ctx, "fit_history", fit_history_cases(), lambda c: check(ctx, c), ctx.n(8, 60), shrink=False)
     # whole alignments / searches: ~0.5 s per case
     if ctx.is_open(K_XCORR):
         ctx.exclude(K_XCORR, ctx.n(6, 120))
